@@ -401,6 +401,16 @@ SPAN_TEMPLATES = [
     'fun g(): Int {\n  "{W}" "{X}" 7\n}\n\ng()\n',
     'fun h(): String {\n  let s = "{X}" "{W}x" s\n}\nfun a() { "{W}" } fun b() { a() h() }\n\nb()\n',
 ]
+# Lint-triggering programs whose fix spans involve MULTI-LINE constructs ({W} = string contents).
+MULTI_TEMPLATES = [
+    'fun add(x: Int, y: Int): Int {\n  x + y\n}\n\nfun f(): Int {\n  let v = add(\n    1,\n    2,\n  )\n  v\n}\n\nf()\n',
+    'fun g(): List<String> {\n  let v = [\n    "{W}",\n    "b",\n  ]\n  v\n}\n\ng()\n',
+    'fun h(b: Bool): Int {\n  let v = if b {\n    1 // {W}\n  } else {\n    2\n  }\n  v\n}\n\nh(True)\n',
+    'fun m(o: Option<Int>): Int {\n  let s = "{W}" let v = match o {\n    Some(n) => n\n    None => 0\n  }\n  v\n}\n\nm(None)\n',
+    'fun k(): Int {\n  "a\n{W}\nb" 12\n}\nfun k2(): Int {\n  [\n    1,\n    2,\n  ] 3\n}\n\nk() k2()\n',
+    'fun r(x: Bool, y: Bool): Bool {\n  x ||\n    y || // {W}\n    x\n}\nfun r2(x: Bool, y: Bool): Bool {\n  (x &&\n    y) && x\n}\n\nr(True, False) r2(True, False)\n',
+    'fun u(): Int {\n  let w = "{W}" let v = add2(\n    1, 2)\n  v\n}\nfun add2(x: Int, y: Int): Int { x + y }\n\nu()\n',
+]
 SPAN_STRINGS = ["é", "日本", "\U0001F600", "a€\U0001d11e", "ü\U0001F600é"]
 
 UNI = ["", "é", "\U0001F600", "€é", "\U0001F600\U0001d11eé", "abc"]
@@ -595,7 +605,7 @@ def run_program(ctx, job):
     ranges = []           # (what, start_offset, end_offset, line, end_line, [sl, sc, el, ec] from the server)
     range_problems = []   # (key, what, detail)
     clean = "\r" not in src and src.endswith("\n") and "// args: " not in src
-    spanprog = name.startswith("span")
+    spanprog = name.startswith("span") or name.startswith("multi")
     # published diagnostics vs the Garden positions `check --json` reports (1-based lines, byte columns)
     if clean and (spanprog or not ctx.quick() or idx % 3 == 1):
         diags = None
@@ -632,7 +642,8 @@ def run_program(ctx, job):
                     r = dg["range"]
                     ranges.append(("diagnostic " + repr(msg)[:60], line_starts[l0] + g["column"],
                                    line_starts[l1] + g["end_column"], l0, l1,
-                                   [r["start"]["line"], r["start"]["character"], r["end"]["line"], r["end"]["character"]]))
+                                   [r["start"]["line"], r["start"]["character"], r["end"]["line"], r["end"]["character"]],
+                                   None))
 
     seen_edits = []
 
@@ -731,21 +742,40 @@ def run_program(ctx, job):
                                            dict(symbol=sym.get("name"), range=rr, selectionRange=sr,
                                                 range_text=text[:200], selection_text=sel[:80])))
         elif req[0] == "fixes":
-            if "\r" in src or not src.endswith("\n") or "// args: " in src:
-                continue
-            eds, prob = [], None
-            for act in res or []:
-                if act.get("kind") == "quickfix":
-                    e1 = edits_of(act.get("edit"))
-                    if e1 in (None, "other-uri"):
-                        prob = "quickfix without edit"
-                    else:
-                        eds += e1
+            acts = [a for a in res or [] if a.get("kind") == "quickfix"]
+            eds, prob, per_act = [], None, []
+            for act in acts:
+                e1 = edits_of(act.get("edit"))
+                if e1 in (None, "other-uri"):
+                    prob = "quickfix without edit"
+                    per_act.append(None)
+                else:
+                    eds += e1
+                    per_act.append(e1)
+            # the Garden fix positions (hook op `check`: the same load + check pipeline as get_fixes), in order
+            gfix = ctx.garden_verif_fixes(src)
+            garden_overlap = None
+            if gfix is not None and len(gfix) == len(acts) and all(
+                    e1 is not None and len(e1) == 1 and e1[0]["newText"] == g[6] and a.get("title") == g[0]
+                    for a, e1, g in zip(acts, per_act, gfix)):
+                for a, e1, g in zip(acts, per_act, gfix):
+                    r = e1[0]["range"]
+                    ranges.append(("quickfix " + repr(g[0])[:60], g[1], g[2], None, None,
+                                   [r["start"]["line"], r["start"]["character"], r["end"]["line"], r["end"]["character"]],
+                                   (g[3], g[4])))
+                spans = sorted((g[1], g[2]) for g in gfix)
+                garden_overlap = any(a_[1] > b_[0] for a_, b_ in zip(spans, spans[1:]))
             if not eds:
                 continue
             lsp, prob2 = apply_edits(src, eds)
             if prob2 == "overlapping edits":
+                if garden_overlap is False and not has_bare_cr(src):
+                    range_problems.append(("C29/edit-overlap/quickfixes", "quickfix edits of the server overlap "
+                                           "although the fixes' byte spans in the source do not",
+                                           dict(edits=eds, garden_fix_spans=[list(g[1:3]) for g in gfix])))
                 continue      # `check --fix` applies overlapping fixes sequentially; not comparable
+            if "\r" in src or not src.endswith("\n") or "// args: " in src:
+                continue      # `check` normalises such files before fixing
             st, so2 = cli(ctx, ["check", "--fix", "--stdout", path])
             if st in ("crash", "timeout"):
                 prob = "cli " + st
@@ -797,6 +827,13 @@ def server_edits(ctx):
         k = src.find("\n")
         if k > 0:
             variants.append((name + "+barecr", src[:k] + "\r" + src[k + 1:], []))
+    for ti, t in enumerate(MULTI_TEMPLATES):
+        ws = ["x", "é", "日本\U0001F600"] if ti % 2 else ["\U0001F600é", "x"]
+        for w in (ws if not ctx.quick() else ws[:1 + (ti % 2)]):
+            src = t.replace("{W}", w)
+            variants.append(("multi%d[%s]" % (ti, w), src, []))
+            if ti in (0, 2, 5) and (w == ws[0]):
+                variants.append(("multi%d[%s]+crlf" % (ti, w), src.replace("\n", "\r\n"), []))
     d = ctx.scratch("lsp")
     jobs = []
     n_sel = ctx.scale(1, 12)
@@ -869,12 +906,16 @@ def server_edits(ctx):
                 n_sym += 1
                 ctx.case((job[1], "symbol", n_sym), True)
                 continue
-            what, so_, eo_, l0, l1, got = rg
+            what, so_, eo_, l0, l1, got, glines = rg
+            if l0 is None:        # line taken from the offset, not from the Position's line_number
+                bsrc = out["src"].encode("utf-8")
+                l0, l1 = bsrc[:so_].count(b"\n"), bsrc[:eo_].count(b"\n")
+                rg = (what, so_, eo_, l0, l1, got, glines)
             rlines.append("lsp_range %s %d %d %d %d" % (common.hexs(out["src"]), so_, eo_, l0, l1))
             rmeta.append((job, out, rg))
     rmodel = model_batch(ctx, rlines)
     n_span_nonascii = 0
-    for (job, out, (what, so_, eo_, l0, l1, got)), m in zip(rmeta, rmodel):
+    for (job, out, (what, so_, eo_, l0, l1, got, glines)), m in zip(rmeta, rmodel):
         src = out["src"]
         span = src.encode("utf-8")[so_:eo_]
         nonascii = any(b > 0x7f for b in span)
@@ -883,6 +924,11 @@ def server_edits(ctx):
         replay = dict(program=job[1], span=what, source=src, file=out["file"], jsonl=out["jsonl"],
                       garden_start_offset=so_, garden_end_offset=eo_, garden_line=l0, garden_end_line=l1,
                       server_range=got, model=m)
+        if glines is not None and glines != (l0, l1):
+            ctx.fail("C29/edit-range-line", "a fix Position's line_number / end_line_number is not the line that "
+                     "contains its start_offset / end_offset, so the edit range the server sends is on another line",
+                     position_lines=list(glines), lines_of_offsets=[l0, l1], **replay)
+            continue
         bl = set(boundaries(src))
         if so_ in bl and eo_ in bl:
             ref = list(py_pos(src, so_) + py_pos(src, eo_))
@@ -921,6 +967,18 @@ def run(ctx):
             r = fmt.ask("format " + common.hexs(src))
         return common.unhex(r[3:]) if r.startswith("OK ") else None
     ctx.garden_verif_format = garden_verif_format
+
+    fix_re = re.compile(r"\(fix ([0-9a-f]*) (\d+):(\d+):(\d+):(\d+):\d+:\d+ ([0-9a-f]*)\)")
+
+    def garden_verif_fixes(src):
+        """[(description, start_offset, end_offset, line_number, end_line_number, _, new_text)] or None."""
+        with lock:
+            r = fmt.ask("check " + common.hexs(src))
+        if not r.startswith("OK"):
+            return None
+        return [(common.unhex(m.group(1)), int(m.group(2)), int(m.group(3)), int(m.group(4)), int(m.group(5)),
+                 None, common.unhex(m.group(6))) for m in fix_re.finditer(r)]
+    ctx.garden_verif_fixes = garden_verif_fixes
 
     ctx.rule = ("(A) every document of length <= %d over {a, e-acute, euro, U+1F600, CR, LF} and random longer ones "
                 "with characters on each UTF-8/UTF-16 length border: every byte offset 0..len+2 (non-boundary "
